@@ -280,6 +280,79 @@ def rule_notify(prog):
     return res
 
 
+def _global_writes(f):
+    """[(block, name)] for stores through / &mut-self calls on a MutexGuard (process-wide state)"""
+    guard_muts, out = {}, []
+    for bi, t in f.calls():
+        if (callee_written(t) or "") == "core::ops::deref::DerefMut::deref_mut" and "MutexGuard" in (f.place_ty(t["args"][0]) or "") and not proj(t["dest"]):
+            inner = (f.local_ty(t["dest"]["l"]) or "").replace("&mut ", "")
+            guard_muts[t["dest"]["l"]] = inner.split("<")[0].split("::")[-1] or "guarded"
+    for bi, si, st in f.all_rvalues():
+        p_ = st["p"]
+        if proj(p_) and p_["l"] in guard_muts and proj(p_)[0] == "*":
+            out.append((bi, guard_muts[p_["l"]]))
+    for bi, t in f.calls():
+        if t["args"] and is_place(t["args"][0]) and not proj(t["args"][0]) and t["args"][0]["l"] in guard_muts and (callee_name(t) or "").startswith("kanata"):
+            out.append((bi, guard_muts[t["args"][0]["l"]] + "." + callee_name(t).split("::")[-1] + "()"))
+    return out
+
+
+def rule_globals(prog):
+    """R-RELOAD-GLOBALS: the process-wide tables a configuration installs (the intercepted key set MAPPED_KEYS, the
+    zippychord state) are replaced on *every* path of a successful reload, not only under some condition."""
+    res = RuleResult("R-RELOAD-GLOBALS", "a successful reload always installs the new global tables", floor=1)
+    f = prog.fn(K + "::do_live_reload")
+    res.fn(f)
+    pb, sw, okb = _ok_arm(prog, f)
+    if okb is None:
+        res.viol("shape", f.loc, "do_live_reload no longer matches on the result of cfg::new_from_file")
+        return res
+    writes = {}
+    for (bi, name) in _global_writes(f):
+        writes.setdefault(name, []).append(bi)
+    # successful exits: returns that are not reached through an error propagation
+    err_blocks = {bi for bi, t in f.calls() if "from_residual" in (callee_name(t) or "")}
+    for bi, si, st in f.all_rvalues():
+        if st["p"]["l"] == 0 and not proj(st["p"]) and st["rv"]["k"] == "agg" and st["rv"].get("v") == "Err":
+            err_blocks.add(bi)
+    ok_rets = [bi for bi, si, st in f.all_rvalues()
+               if st["p"]["l"] == 0 and not proj(st["p"]) and st["rv"]["k"] == "agg" and st["rv"].get("adt") == "core::result::Result" and st["rv"].get("v") == "Ok"]
+    for name, blocks in sorted(writes.items()):
+        reach = f.reach_from(okb, avoid=blocks + list(err_blocks))
+        ok = not any(r in reach for r in ok_rets)
+        res.inst("global/" + name, write_sites=len(blocks), on_every_successful_path=ok)
+        res.oblige(ok)
+        if not ok:
+            res.viol("global/" + name, f.loc,
+                     "do_live_reload can report success without having replaced the global %s: the new configuration runs with the old "
+                     "configuration's table" % name)
+    if not writes:
+        res.viol("anchors", f.loc, "do_live_reload writes no mutex-guarded global any more (MAPPED_KEYS / zippychord)")
+    return res
+
+
+def rule_parse_globals(prog):
+    """R-PARSE-GLOBALS: the parser keeps the deflocalkeys names in a process-wide table. Each parse installs its own
+    table unconditionally, otherwise names (or overridden default names) of the previous file leak into the next
+    one and a reload is no longer equivalent to a fresh start."""
+    res = RuleResult("R-PARSE-GLOBALS", "every parse installs its own local-key name table", floor=1)
+    f = prog.fn("kanata_parser::cfg::parse_cfg_raw_string")
+    res.fn(f)
+    REPL = "kanata_parser::keys::replace_custom_str_oscode_mapping"
+    calls = [bi for bi, t in f.calls() if callee_name(t) == REPL]
+    ok_rets = [bi for bi, si, st in f.all_rvalues()
+               if st["p"]["l"] == 0 and not proj(st["p"]) and st["rv"]["k"] == "agg" and st["rv"].get("adt") == "core::result::Result" and st["rv"].get("v") == "Ok"]
+    reach = f.reach_from(0, avoid=calls)
+    ok = bool(calls) and not any(r in reach for r in ok_rets)
+    res.inst("replace-on-every-successful-path", calls=len(calls), ok_returns=len(ok_rets), ok=ok)
+    res.oblige(ok)
+    if not ok:
+        res.viol("replace-on-every-successful-path", f.loc,
+                 "parse_cfg_raw_string can succeed without calling replace_custom_str_oscode_mapping: key names defined by the "
+                 "previously loaded file stay valid for this one")
+    return res
+
+
 def rule_pending(prog):
     """R-RELOAD-PENDING: a reload request that has to wait (an output key is still down) stays pending: the request flag
     is only ever set to a constant or OR-ed with its previous value, never overwritten by a fresh non-constant value."""
@@ -325,4 +398,4 @@ def rule_pending(prog):
 
 
 def run_all(prog):
-    return [rule_atomic(prog), rule_fields(prog), rule_gate(prog), rule_notify(prog), rule_pending(prog)]
+    return [rule_atomic(prog), rule_fields(prog), rule_gate(prog), rule_notify(prog), rule_pending(prog), rule_globals(prog), rule_parse_globals(prog)]
